@@ -20,6 +20,7 @@ import (
 	"regexp"
 	"runtime"
 	"sort"
+	"strconv"
 	"strings"
 	"sync/atomic"
 	"time"
@@ -168,6 +169,10 @@ func main() {
 	cmd, id := os.Args[1], os.Args[2]
 	if cmd == "c05worker" {
 		c05Worker()
+		return
+	}
+	if cmd == "fuzzcorpus" { // gotsverif fuzzcorpus <out.ndjson> <src-label> <dir>...: Go fuzz corpus files -> rows
+		fuzzCorpus(os.Args[2], os.Args[3], os.Args[4:])
 		return
 	}
 	p, ok := props[id]
@@ -641,4 +646,64 @@ func grouper(emit0 func([]Ev), ops ...string) (emit func([]Ev), flush func()) {
 	}
 	flush = func() { take(true) }
 	return
+}
+
+// fuzzCorpus converts "go test fuzz v1" corpus files with the signature (uint8, []byte, uint16) into rows.
+func fuzzCorpus(out, label string, dirs []string) {
+	f, err := os.Create(out)
+	if err != nil {
+		die("%v", err)
+	}
+	defer f.Close()
+	enc := json.NewEncoder(f)
+	lit := func(line string) (string, string) { // "type(literal)" -> type, literal
+		i := strings.Index(line, "(")
+		if i < 0 || !strings.HasSuffix(line, ")") {
+			return "", ""
+		}
+		return line[:i], line[i+1 : len(line)-1]
+	}
+	for _, d := range dirs {
+		ents, _ := os.ReadDir(d)
+		for _, en := range ents {
+			b, err := os.ReadFile(filepath.Join(d, en.Name()))
+			if err != nil {
+				continue
+			}
+			lines := strings.Split(strings.TrimSpace(string(b)), "\n")
+			if len(lines) != 4 || !strings.HasPrefix(lines[0], "go test fuzz v1") {
+				continue
+			}
+			row := Ev{"src": label, "file": en.Name()}
+			ok := true
+			for k, ln := range lines[1:] {
+				ty, v := lit(strings.TrimSpace(ln))
+				switch {
+				case k == 0 && (ty == "byte" || ty == "uint8"):
+					if strings.HasPrefix(v, "'") {
+						r, _, _, e := strconv.UnquoteChar(v[1:len(v)-1], 39)
+						ok = ok && e == nil
+						row["opi"] = int(r) & 0xff
+					} else {
+						n, e := strconv.ParseInt(v, 0, 32)
+						ok = ok && e == nil
+						row["opi"] = int(n) & 0xff
+					}
+				case k == 1 && ty == "[]byte":
+					sv, e := strconv.Unquote(v)
+					ok = ok && e == nil
+					row["in"] = B([]byte(sv))
+				case k == 2 && ty == "uint16":
+					n, e := strconv.ParseInt(v, 0, 32)
+					ok = ok && e == nil
+					row["arg"] = int(n) & 0xffff
+				default:
+					ok = false
+				}
+			}
+			if ok {
+				enc.Encode(row)
+			}
+		}
+	}
 }
